@@ -14,6 +14,7 @@ SPEC = {
         "input cursor advances by exactly what write() accepted and the next chunk starts at the cursor; (e) stdin "
         "is closed when, and only when, the cursor reaches the end; (f) the text variants are the lossy decoding of "
         "the very same byte result, component-wise."
+        " Also: the advanced input cursor is stored before every return (error returns included). Thorough tier, windows: routing by StreamIdent, transmit = chunk[..nread], read() yields Some(vec) iff that stream was requested."
     ),
     "not_decided": "that the kernel delivers bytes in order; short-read / short-write behaviour beyond the accounting clauses; UTF-8 decoding (std).",
     "trusted_base": ["rustc MIR", "Read::read returns n <= buf.len() and fills buf[..n]; Write::write returns how many bytes of the slice it took",
